@@ -1,4 +1,364 @@
 package main
 
-func cmdCheck(args []string)    {}
+import (
+	"encoding/json"
+	"flag"
+	"fmt"
+	"os"
+	"path/filepath"
+	"runtime"
+	"sort"
+	"strconv"
+	"strings"
+	"time"
+)
+
+type KnownFinding struct {
+	Property string `json:"property"`
+	Family   string `json:"family"`
+	Witness  string `json:"witness,omitempty"`
+	What     string `json:"what"`
+	Status   string `json:"status"` // "open" | "fixed"
+	Commit   string `json:"commit,omitempty"`
+}
+
+type KnownFile struct {
+	Findings []KnownFinding `json:"findings"`
+}
+
+type Baseline struct {
+	// property -> families that discharge on the delivered tree
+	Families map[string][]string `json:"families"`
+}
+
+func loadJSON(path string, v any) error {
+	data, err := os.ReadFile(path)
+	if err != nil {
+		return err
+	}
+	return json.Unmarshal(data, v)
+}
+
+func hasProp(props []string, p string) bool {
+	for _, x := range props {
+		if x == p {
+			return true
+		}
+	}
+	return false
+}
+
+type checkResult struct {
+	prop       string
+	funcs      []*FuncResult
+	synt       []*Obligation // syntactic obligations (frame / callers / target)
+	all        []*Obligation
+	violations []string
+}
+
+func cmdCheck(args []string) {
+	fs := flag.NewFlagSet("check", flag.ExitOnError)
+	prop := fs.String("prop", "", "property id")
+	tier := fs.String("tier", envOr("VERIF_TIER", "quick"), "quick|thorough")
+	writeBaseline := fs.Bool("write-baseline", false, "record the families that discharge now as the baseline (by hand only)")
+	replayPath := fs.String("replay", "", "re-run a stored replay file")
+	fs.Parse(args)
+	if *replayPath != "" {
+		os.Exit(rerunReplay(*replayPath))
+	}
+	if *prop == "" {
+		fmt.Fprintln(os.Stderr, "check: -prop required")
+		os.Exit(2)
+	}
+	seed, _ := strconv.Atoi(envOr("VERIF_SEED", "0"))
+	t0 := time.Now()
+	w := loadAll(nil)
+	timeout := 10
+	if *tier == "thorough" {
+		timeout = 60
+	}
+	work := filepath.Join(verifDir, "work", *prop)
+	os.RemoveAll(work)
+	os.MkdirAll(work, 0o755)
+	cfg := SolverCfg{WorkDir: work, TimeoutS: timeout, Seed: seed, Jobs: runtime.NumCPU()}
+	res := runProperty(w, *prop, cfg)
+	code := report(w, res, *tier, seed, cfg, t0, *writeBaseline)
+	os.Exit(code)
+}
+
+// runProperty verifies every contract tagged with the property and the syntactic frame/callers declarations.
+func runProperty(w *World, prop string, cfg SolverCfg) *checkResult {
+	res := &checkResult{prop: prop}
+	for _, key := range sortedKeys(w.Contracts) {
+		c := w.Contracts[key]
+		if c.Trusted || !hasProp(c.Props, prop) {
+			continue
+		}
+		pi := w.Pkgs[c.Pkg]
+		fname := shortPkg(c.Pkg) + "." + c.Key
+		if pi == nil || pi.Funcs[c.Key] == nil {
+			o := &Obligation{ID: fname + "#target@1", Family: fname + "#target", Kind: "target", Func: fname,
+				Text: "function under contract no longer exists in /repo (contract at " + c.File + ":" + fmt.Sprint(c.Line) + ")", Status: "unknown", Goal: "false"}
+			res.synt = append(res.synt, o)
+			continue
+		}
+		r := w.verifyFunc(pi, pi.Funcs[c.Key], c, "contract")
+		if r.OutOfSubset != "" {
+			o := &Obligation{ID: fname + "#subset@1", Family: fname + "#subset", Kind: "subset", Func: fname,
+				Text: "function left the verified subset: " + r.OutOfSubset, Status: "unknown", Goal: "false"}
+			res.synt = append(res.synt, o)
+		} else {
+			o := &Obligation{ID: fname + "#subset@1", Family: fname + "#subset", Kind: "subset", Func: fname,
+				Text: "function is within the verified subset", Status: "discharged", Backend: "syntactic", Goal: "true"}
+			res.synt = append(res.synt, o)
+		}
+		// loops named by the contract must exist
+		for n := range c.Loops {
+			if n > countLoops(pi.Funcs[c.Key]) {
+				o := &Obligation{ID: fmt.Sprintf("%s#target.loop%d@1", fname, n), Family: fmt.Sprintf("%s#target.loop%d", fname, n), Kind: "target", Func: fname,
+					Text: fmt.Sprintf("loop %d named by the contract does not exist", n), Status: "unknown", Goal: "false"}
+				res.synt = append(res.synt, o)
+			}
+		}
+		res.funcs = append(res.funcs, r)
+	}
+	res.synt = append(res.synt, w.checkFrames(prop)...)
+	for _, r := range res.funcs {
+		res.all = append(res.all, r.Obls...)
+	}
+	dischargeAll(res.all, cfg)
+	res.all = append(res.all, res.synt...)
+	return res
+}
+
+func report(w *World, res *checkResult, tier string, seed int, cfg SolverCfg, t0 time.Time, writeBaseline bool) int {
+	prop := res.prop
+	var known KnownFile
+	loadJSON(filepath.Join(verifDir, "known_findings.json"), &known)
+	var base Baseline
+	loadJSON(filepath.Join(verifDir, "baseline", "families.json"), &base)
+	if base.Families == nil {
+		base.Families = map[string][]string{}
+	}
+	inBase := map[string]bool{}
+	for _, f := range base.Families[prop] {
+		inBase[f] = true
+	}
+	knownFam := map[string]KnownFinding{}
+	for _, k := range known.Findings {
+		if k.Property == prop && k.Status == "open" {
+			knownFam[k.Family] = k
+		}
+	}
+	// group by family
+	famStatus := map[string]string{} // discharged | failed
+	famObls := map[string][]*Obligation{}
+	for _, o := range res.all {
+		famObls[o.Family] = append(famObls[o.Family], o)
+		if o.Status == "discharged" {
+			if famStatus[o.Family] == "" {
+				famStatus[o.Family] = "discharged"
+			}
+		} else {
+			famStatus[o.Family] = "failed"
+		}
+	}
+	if writeBaseline {
+		var fams []string
+		for f, s := range famStatus {
+			if s == "discharged" {
+				fams = append(fams, f)
+			}
+		}
+		sort.Strings(fams)
+		base.Families[prop] = fams
+		os.MkdirAll(filepath.Join(verifDir, "baseline"), 0o755)
+		data, _ := json.MarshalIndent(base, "", " ")
+		os.WriteFile(filepath.Join(verifDir, "baseline", "families.json"), data, 0o644)
+		fmt.Printf("baseline for %s: %d families\n", prop, len(fams))
+	}
+	replayDir := filepath.Join(verifDir, "replays", prop)
+	os.MkdirAll(replayDir, 0o755)
+	violations := 0
+	var knownLines, undecided []string
+	seenKnown := map[string]bool{}
+	for _, fam := range sortedKeys(famStatus) {
+		if famStatus[fam] != "failed" {
+			continue
+		}
+		var bad *Obligation
+		for _, o := range famObls[fam] {
+			if o.Status != "discharged" {
+				if bad == nil || (o.Status == "refuted" && bad.Status != "refuted") {
+					bad = o
+				}
+			}
+		}
+		if k, ok := knownFam[fam]; ok {
+			if !seenKnown[fam] {
+				seenKnown[fam] = true
+				line := fmt.Sprintf("KNOWN-FINDING: property=%s %s %s", prop, fam, k.What)
+				knownLines = append(knownLines, line)
+				fmt.Println(line)
+			}
+			continue
+		}
+		rp := writeReplay(w, replayDir, prop, bad)
+		suffix := ""
+		if rp.Outcome != "reproduced" {
+			suffix = " no-failing-input-found"
+		}
+		if inBase[fam] || len(base.Families[prop]) == 0 {
+			violations++
+			fmt.Printf("VIOLATION property=%s replay=%s%s\n", prop, rp.Path, suffix)
+			fmt.Printf("  obligation %s [%s] at %s: %s\n", bad.ID, bad.Status, bad.Pos, bad.Text)
+		} else if rp.Outcome == "reproduced" {
+			violations++
+			fmt.Printf("VIOLATION property=%s replay=%s\n", prop, rp.Path)
+			fmt.Printf("  obligation %s [%s] at %s: %s\n", bad.ID, bad.Status, bad.Pos, bad.Text)
+		} else {
+			line := fmt.Sprintf("UNDECIDED property=%s %s [%s] at %s (new obligation family, no replayable counterexample)", prop, bad.ID, bad.Status, bad.Pos)
+			undecided = append(undecided, line)
+			fmt.Println(line)
+		}
+	}
+	// baseline families that vanished entirely (a silent pass with fewer obligations would be vacuous)
+	for f := range inBase {
+		if _, ok := famStatus[f]; !ok && strings.Contains(f, "#post.") {
+			violations++
+			o := &Obligation{ID: f + "@0", Family: f, Kind: "target", Text: "obligation family of the baseline produced no obligation on this tree", Status: "unknown"}
+			rp := writeReplay(w, replayDir, prop, o)
+			fmt.Printf("VIOLATION property=%s replay=%s no-failing-input-found\n", prop, rp.Path)
+			fmt.Printf("  family %s produced no obligation\n", f)
+		}
+	}
+	writeEvidence(w, res, tier, seed, cfg, t0, violations, knownLines, undecided, knownFam)
+	if violations > 0 {
+		return 1
+	}
+	return 0
+}
+
+// ---------------------------------------------------------------- evidence
+
+func writeEvidence(w *World, res *checkResult, tier string, seed int, cfg SolverCfg, t0 time.Time, violations int, knownLines, undecided []string, knownFam map[string]KnownFinding) {
+	prop := res.prop
+	nObl, nDis := 0, 0
+	byBackend := map[string]int{}
+	solverTime := 0.0
+	famSeen := map[string]bool{}
+	var fams []map[string]any
+	var samples []map[string]any
+	knownObl := 0
+	for _, o := range res.all {
+		if _, k := knownFam[o.Family]; k && o.Status != "discharged" {
+			knownObl++
+			continue
+		}
+		nObl++
+		if o.Status == "discharged" {
+			nDis++
+		}
+		byBackend[o.Backend]++
+		solverTime += o.TimeS
+		if !famSeen[o.Family] {
+			famSeen[o.Family] = true
+			fams = append(fams, map[string]any{"family": o.Family, "kind": o.Kind, "status": o.Status, "backend": o.Backend, "time_s": round3(o.TimeS)})
+			if len(samples) < 12 && o.Kind != "vacuity" && o.Kind != "subset" {
+				samples = append(samples, map[string]any{"obligation": o.ID, "at": o.Pos, "text": o.Text, "status": o.Status, "backend": o.Backend, "smt_file": o.SMTFile})
+			}
+		}
+	}
+	var fnames []string
+	var uncontracted, deps, dropped, assumptions, outOfSubset []string
+	set := func(dst *[]string, xs []string, prefix string) {
+		for _, x := range xs {
+			*dst = append(*dst, prefix+x)
+		}
+	}
+	for _, r := range res.funcs {
+		fnames = append(fnames, r.Func)
+		set(&uncontracted, r.Uncontracted, r.Func+": ")
+		set(&deps, r.DepsUsed, "")
+		set(&dropped, r.Dropped, r.Func+": ")
+		set(&assumptions, r.Assumptions, "")
+		if r.OutOfSubset != "" {
+			outOfSubset = append(outOfSubset, r.Func+": "+r.OutOfSubset)
+		}
+		for _, rq := range r.Contract.Requires {
+			assumptions = append(assumptions, "precondition of "+r.Func+" (established by verified callers only where a pre obligation names it): "+rq.Text)
+		}
+		for k := range r.Contract.NoSafety {
+			assumptions = append(assumptions, r.Func+": safety obligations of kind '"+k+"' not generated (nosafety)")
+		}
+		for _, n := range r.Contract.Notes {
+			assumptions = append(assumptions, r.Func+": "+n)
+		}
+	}
+	deps = uniq(deps)
+	assumptions = uniq(assumptions)
+	for _, d := range deps {
+		assumptions = append(assumptions, "trusted dependency specification: "+d)
+	}
+	for _, sf := range w.SpecFiles {
+		for _, a := range sf.Assumes {
+			assumptions = append(assumptions, "scan hit (assume/trusted/axiom): "+a)
+		}
+	}
+	assumptions = append(assumptions,
+		"package-level error variables are immutable, non-nil and pairwise distinct",
+		"sequential semantics: the verified functions are not interleaved with other goroutines touching the same objects",
+		"heap well-formedness at entry: integer cells within their type range, pointers nil or allocated, slice len/cap/off non-negative")
+	cov := map[string]any{
+		"obligations":              nObl,
+		"discharged":               nDis,
+		"checker_cmd":              fmt.Sprintf("/verif/bin/govc check -prop %s -tier %s  (VCs from /repo working tree via go/packages -tags=verif; solvers z3-new 5.1 / z3 4.8.12 / cvc5 1.0.x raced, %ds limit)", prop, tier, cfg.TimeoutS),
+		"trusted_base":             append([]string{"govc VC generator (/verif/govc)", "go/packages + go/types (x/tools v0.29.0)", "SMT solvers z3 / cvc5"}, deps...),
+		"samples":                  samples,
+		"functions_under_contract": fnames,
+		"families":                 fams,
+		"by_backend":               byBackend,
+		"solver_time_s":            round3(solverTime),
+		"uncontracted_callees":     uniq(uncontracted),
+		"dropped":                  uniq(dropped),
+		"out_of_subset":            outOfSubset,
+		"known_findings":           knownLines,
+		"known_finding_obligations_excluded": knownObl,
+		"undecided":                undecided,
+		"integers":                 "mathematical Int with range obligations (overflow / narrowing are obligations; wrap-around only where a contract opts in with `wraps`)",
+	}
+	ev := map[string]any{
+		"property_id": prop,
+		"tier":        tier,
+		"seed":        seed,
+		"level":       "proof",
+		"coverage":    cov,
+		"assumptions": assumptions,
+		"wall_s":      round3(time.Since(t0).Seconds()),
+		"violations":  violations,
+	}
+	os.MkdirAll(filepath.Join(verifDir, "evidence"), 0o755)
+	var buf strings.Builder
+	enc := json.NewEncoder(&buf)
+	enc.SetEscapeHTML(false)
+	enc.SetIndent("", " ")
+	enc.Encode(ev)
+	os.WriteFile(filepath.Join(verifDir, "evidence", prop+".json"), []byte(buf.String()), 0o644)
+}
+
+func round3(f float64) float64 { return float64(int(f*1000)) / 1000 }
+
+func uniq(xs []string) []string {
+	m := map[string]bool{}
+	var out []string
+	for _, x := range xs {
+		if !m[x] {
+			m[x] = true
+			out = append(out, x)
+		}
+	}
+	sort.Strings(out)
+	return out
+}
+
 func cmdSelftest(args []string) {}
